@@ -3,6 +3,9 @@
 import json, os
 V = os.path.dirname(os.path.dirname(os.path.abspath(__file__)))
 checks = json.load(open(os.path.join(V, "checks.json")))
+import glob
+for _f in sorted(glob.glob(os.path.join(V, "checks.d", "*.json"))):
+    checks.update(json.load(open(_f)))
 props = [json.loads(l) for l in open(os.path.join(V, "properties.jsonl")) if l.strip()]
 na_path = os.path.join(V, "not_applicable.json")
 na = json.load(open(na_path)) if os.path.exists(na_path) else {}
